@@ -62,8 +62,9 @@ func runScan[T num](c *vrt.Ctx, k *scanKernel[T], n int, reduced bool) {
 	t := newTally(c)
 	defer t.flush()
 	r := c.RNG("scan|"+k.name, n)
-	classes := []vclass{vcUniform, vcInt, vcZero, vcSubnormal, vcHugeTiny, vcNaN, vcInf}
+	classes := []vclass{vcUniform, vcInt, vcZero, vcSubnormal, vcHugeTiny, vcNaN, vcInf, vcMix}
 	pls := placements(n)
+	mixCtr := n * 13
 	if reduced {
 		classes = []vclass{vcUniform, vcInt}
 		pls = []placement{pls[0], pls[5], pls[8], pls[9]}
@@ -79,7 +80,8 @@ func runScan[T num](c *vrt.Ctx, k *scanKernel[T], n int, reduced bool) {
 				if alias == 1 && pi%3 != 0 && vc == vcUniform {
 					continue
 				}
-				bits, ok := runScanCase(c, t, r, k, n, vc, pl, alias == 1)
+				mixCtr++
+				bits, ok := runScanCase(c, t, r, k, n, vc, pl, alias == 1, mixCtr)
 				if vc == vcInt {
 					dg.add(fmt.Sprintf("%s|n=%d", k.name, n), bits, ok)
 				}
@@ -89,7 +91,7 @@ func runScan[T num](c *vrt.Ctx, k *scanKernel[T], n int, reduced bool) {
 	// (small-integer class: every association is exact, so builds must agree bit for bit)
 }
 
-func runScanCase[T num](c *vrt.Ctx, t *tally, r *vrt.Rand, k *scanKernel[T], n int, vc vclass, pl placement, alias bool) ([]uint64, bool) {
+func runScanCase[T num](c *vrt.Ctx, t *tally, r *vrt.Rand, k *scanKernel[T], n int, vc vclass, pl placement, alias bool, mixIdx int) ([]uint64, bool) {
 	var sv []T
 	if k.prod && vc == vcInt {
 		// products of 0, ±1, ±2 are exact at every length
@@ -104,6 +106,9 @@ func runScanCase[T num](c *vrt.Ctx, t *tally, r *vrt.Rand, k *scanKernel[T], n i
 				sv[i] = fromParts[T](0, re)
 			}
 		}
+	} else if vc == vcMix {
+		sv = gen[T](r, vcUniform, n, 0)
+		applyMix(sv, nil, mixIdx)
 	} else {
 		sv = gen[T](r, vc, n, 280)
 	}
@@ -119,9 +124,9 @@ func runScanCase[T num](c *vrt.Ctx, t *tally, r *vrt.Rand, k *scanKernel[T], n i
 	if alias {
 		path = "unit+dst=s"
 	}
-	key := k.name + "|" + path + "|" + pl.mode.String() + "|" + vc.String() + "|" + nClass(n)
+	key := k.name + "|" + path + "|" + pl.mode.String() + "|" + className(vc) + "|" + nClass(n)
 	mk := func(idx int, got, want any) *replay {
-		return &replay{Routine: k.name, N: n, Off: []int{pl.offD, pl.offX}, Place: pl.mode.String(), Class: vc.String(), Alias: path, X: sv, Index: idx, Got: got, Want: want}
+		return &replay{Routine: k.name, N: n, Off: []int{pl.offD, pl.offX}, Place: pl.mode.String(), Class: className(vc), Alias: path, X: sv, Index: idx, Got: got, Want: want}
 	}
 	c.LastCase(key + fmt.Sprintf(" n=%d", n))
 	var ret []T
